@@ -23,7 +23,14 @@ type Writer struct {
 var (
 	serializers    sync.Map
 	once           sync.Once
-	defaultOptions = &Options{
+	defaultOptions = newDefaultOptions()
+)
+
+// newDefaultOptions returns a new options set loaded with the default values.
+// Every Writer gets its own copy so that options applied to one instance never
+// leak into another.
+func newDefaultOptions() *Options {
+	return &Options{
 		RenderOptions: &native.RenderOptions{
 			Indent: 4,
 		},
@@ -31,13 +38,13 @@ var (
 		StoreOptions:     &storage.StoreOptions{},
 		formatOptions:    map[string]interface{}{},
 	}
-)
+}
 
 func New(opts ...WriterOption) *Writer {
 	ensureSerializersInitialized()
 	w := &Writer{
 		Storage: fstore.NewFileSystem(),
-		Options: defaultOptions,
+		Options: newDefaultOptions(),
 	}
 
 	for _, opt := range opts {
@@ -155,7 +162,7 @@ func (w *Writer) WriteFile(bom *sbom.Document, path string) error {
 
 // Store persists a protobom document to disk using the default options
 func (w *Writer) Store(bom *sbom.Document) error {
-	return w.StoreWithOptions(bom, defaultOptions)
+	return w.StoreWithOptions(bom, w.Options)
 }
 
 // StoreWithOptions stores a protobom document using the configured storage
